@@ -125,6 +125,10 @@ fn classify(h: &[Line], outs: &[Out]) -> Vec<(Inert, &'static str)> {
                     Out::Done(Outcome::Incomplete(_)) => Seen::Incomplete,
                     _ => Seen::Err,
                 };
+                // a line counts as capacity-rejected only when capacity is the only thing against it:
+                // one that sequencing rejects in every build stays a sequencing-rejected line however
+                // long it is
+                let over = over && !matches!(exp, Expect::Reject(_));
                 let c = if f.n == 1 && f.k == 1 {
                     if over {
                         Inert::No
@@ -538,6 +542,63 @@ fn mass_inert_runs(ctx: &Ctx, rep: &mut Report, r: &mut Rng) {
 /// very long fragments (std / alloc): an opener and a sequencing-rejected stray whose lengths
 /// together pass 2^16, 2^20 and 2^24 bytes - wherever a heap-backed buffer might be given a bound,
 /// a rejected line must not be what trips it
+/// no-allocator build: a sequencing-rejected stray whose payload, added to what the open group has
+/// buffered, would not fit the fixed buffer - it is rejected for its sequencing like in every other
+/// build and must not cost the group anything
+fn capacity_strays(ctx: &Ctx, rep: &mut Report, r: &mut Rng) {
+    if !mon::is_noalloc() {
+        return;
+    }
+    let mut item = 7500u64;
+    for l1 in [150usize, 300, 378] {
+        for l2 in [100usize, 240, 384] {
+            for kind in 0..3u8 {
+                if !ctx.mine(item) {
+                    item += 1;
+                    continue;
+                }
+                item += 1;
+                if l1 + l2 <= 384 {
+                    continue;
+                }
+                let _pin = mon::pin_ctor(r.below(2));
+                let id = Some(1u8);
+                let long = |len: usize, tag: u64| {
+                    let mut v = uniq_payload(tag);
+                    v.extend(std::iter::repeat(b'w').take(len - 6));
+                    v
+                };
+                let opener: Line = (nmea_ref::mk(3, 1, id, &long(l1, 1), 0), false);
+                let stray: Line = match kind {
+                    0 => (nmea_ref::mk(2, 2, Some(7), &long(l2, 2), 0), false),
+                    1 => (nmea_ref::mk(3, 3, id, &long(l2, 2), 0), false),
+                    _ => (nmea_ref::mk(9, 5, None, &long(l2, 2), 0), false),
+                };
+                let f2: Line = (nmea_ref::mk(3, 2, id, b"AB", 0), false);
+                let f3: Line = (nmea_ref::mk(3, 3, id, b"CD", 0), false);
+                let with = vec![opener.clone(), stray, f2.clone(), f3.clone()];
+                let without = vec![opener, f2, f3];
+                let (ow, _) = run_hist(&with);
+                let (oo, _) = run_hist(&without);
+                rep.eval();
+                rep.class(format!("capacity-stray|{}+{}|kind{}", l1, l2, kind));
+                rep.count("capacity_strays");
+                if !ow[1].is_err() {
+                    continue;
+                }
+                if ow[0] != oo[0] || ow[2] != oo[1] || ow[3] != oo[2] {
+                    rep.violation(
+                        PID,
+                        "trace-left-by-long-sequencing-rejected-fragment".into(),
+                        format!("a sequencing-rejected fragment of {} characters after an opener of {} characters changes the group (no-allocator build): continuation {} vs {}, final {} vs {}", l2, l1, ow[2].text().chars().take(60).collect::<String>(), oo[1].text().chars().take(60).collect::<String>(), ow[3].text().chars().take(60).collect::<String>(), oo[2].text().chars().take(60).collect::<String>()),
+                        || mon::replay_history(&with, "capacity-stray"),
+                    );
+                }
+            }
+        }
+    }
+}
+
 fn jumbo_inert(ctx: &Ctx, rep: &mut Report, r: &mut Rng) {
     if mon::is_noalloc() {
         return;
@@ -627,6 +688,7 @@ pub fn run(ctx: &Ctx, rep: &mut Report) {
     interleaved_instances(ctx, rep, &mut r);
     mass_inert_runs(ctx, rep, &mut r);
     jumbo_inert(ctx, rep, &mut r);
+    capacity_strays(ctx, rep, &mut r);
     rep.require("removed:Malformed");
     rep.require("removed:BadChecksum");
     rep.require("removed:Sequencing");
